@@ -148,3 +148,10 @@ Proof. exact ex_refused_ok. Qed.
    clears the two byte buffers in supla_esp_devconn__stop or in the connect callback. *)
 Lemma C04_tree_is_repaired : TREE_CLRSTOP || TREE_CLRCONN = true.
 Proof. reflexivity. Qed.
+
+(* examples, witnesses and generated-list facts: closed as well *)
+Print Assumptions C04_sites_guarded.
+Print Assumptions C04_witness_repaired.
+Print Assumptions C04_ex_accepted.
+Print Assumptions C04_ex_refused.
+Print Assumptions C04_tree_is_repaired.
